@@ -28,13 +28,14 @@ func init() {
 var c07Points = []string{"idle", "partial_head", "in_reqmod", "origin_holds", "in_resmod", "write_blocked", "at_handler_entry", "connect_in_reqmod", "busy_tunnel"}
 
 type c07Conn struct {
-	idx    int
-	point  string
-	client *Client
-	id     int // exchange id (0 if none)
-	spec   *ReqSpec
-	resp   *RespSpec
-	late   bool
+	idx       int
+	point     string
+	client    *Client
+	id        int // exchange id (0 if none)
+	spec      *ReqSpec
+	resp      *RespSpec
+	late      bool
+	pipelined bool // more requests were pipelined behind the exchange in flight
 
 	reqEnter, reqRet, resEnter, resRet int
 	reqCalls, resCalls                 int
@@ -45,6 +46,7 @@ func runC07(k *kernel.K) {
 	n := simnet.New(k)
 	n.DefaultPolicy = simnet.ChunkPolicy(w.Pick([]int{6, 2, 1, 1}))
 	n.TCPLikeConns = w.Chance(1, 2)
+	n.ResetOnCloseWithUnread = n.TCPLikeConns && w.Chance(1, 2) // (a reset on close is what TCP does)
 	proxy, l := newProxyA(k, n)
 	k.AddSource(k.GateSource)
 
@@ -233,6 +235,18 @@ func runC07(k *kernel.K) {
 			c.resp = &RespSpec{Status: 502, Framing: "cl"}
 			parkReq[c.id] = true
 			c.client.Add(c.spec)
+		}
+		if (c.point == "in_reqmod" || c.point == "origin_holds" || c.point == "in_resmod" || c.point == "write_blocked") && w.Chance(1, 3) {
+			// the client has pipelined more requests behind the one in flight (RFC 7230 section
+			// 6.3.2): they had not started, so they may go unserved - but what becomes of them must
+			// not cost the exchange in flight its response
+			var more []byte
+			for j, m := 0, 1+w.Draw(3); j < m; j++ {
+				more = append(more, (&ReqSpec{ID: 70 + j, Method: "GET", Abs: true, Host: "origin-a.test", Path: fmt.Sprintf("/x%d/p", 70+j)}).Encode()...)
+			}
+			c.client.AddRaw(more, true)
+			c.pipelined = true
+			k.Probe("pipelined_behind_inflight")
 		}
 		conns = append(conns, c)
 		k.Note("conn %d: park point %s  %s %s -> %s/%dB", ci, c.point, c.spec.Method, c.spec.Target(), c.resp.Framing, len(c.resp.Body))
@@ -490,14 +504,16 @@ func runC07(k *kernel.K) {
 				k.Fail("C07.inflight_completes", map[string]string{"park_point": c.point}, "%s: the CONNECT to an unreachable target had entered its request modifier but the client did not receive a complete 502 (%d responses)", desc, len(fin))
 				continue
 			}
-		} else if len(fin) != 1 || !respMatches(fin[0], c.resp, c.spec.Method) {
+		} else if len(fin) < 1 || (len(fin) != 1 && !c.pipelined) || !respMatches(fin[0], c.resp, c.spec.Method) {
+			// (requests pipelined behind the exchange may have been served as well, if shutdown had
+			// not begun when they were read)
 			got := "none"
 			if len(fin) > 0 {
 				got = fmt.Sprintf("status %d, %d of %d body bytes, complete=%v", fin[0].Status, len(fin[0].Body), len(c.resp.Body), fin[0].Complete)
 			} else if cl.P.Cur != nil {
 				got = fmt.Sprintf("incomplete: %d of %d body bytes", len(cl.P.Cur.Body), len(c.resp.Body))
 			}
-			k.Fail("C07.inflight_completes", map[string]string{"park_point": c.point}, "%s: the exchange had entered its request modifier but the client did not receive the complete response (%s; parse error %v)", desc, got, cl.P.Err)
+			k.Fail("C07.inflight_completes", map[string]string{"park_point": c.point, "pipelined_behind": fmt.Sprint(c.pipelined), "reset": fmt.Sprint(cl.SawRST)}, "%s: the exchange had entered its request modifier but the client did not receive the complete response (%s; parse error %v; requests pipelined behind it: %v; connection reset: %v)", desc, got, cl.P.Err, c.pipelined, cl.SawRST)
 			continue
 		}
 		// Marked connection-close whenever shutdown had been requested before the response
@@ -505,7 +521,7 @@ func runC07(k *kernel.K) {
 		if c.resRet >= 0 && closeCalled < c.resRet && !fin[0].WantsClose() {
 			k.Fail("C07.marked_close", map[string]string{"park_point": c.point}, "%s: response not marked Connection: close although shutdown was requested before the response modifier returned", desc)
 		}
-		if len(cl.P.Raw) > 0 || cl.P.Cur != nil || cl.P.Err != nil {
+		if (len(cl.P.Raw) > 0 || cl.P.Cur != nil || cl.P.Err != nil) && !c.pipelined {
 			k.Fail("C07.closed_after_response", nil, "%s: bytes after the final response", desc)
 		}
 	}
